@@ -476,4 +476,48 @@ theorem gen_ecRead_reads_only [Add K] [Sub K] [Mul K] [Div K] [Neg K] [One K] [O
   have hf : ModelSource.ecFind = "elastic-constants" := rfl
   simp only [ecRead, hf, DM.get?, List.lookup_cons_self, h1]
 
+/-! ### records in the old `C` / `ij` format (the `except:` branch of `ElasticConstants.model(model=…)`) -/
+
+/-- the keyword of an old-format entry as the source forms it (`prefix + C[ik][i] + C[ik][j]`, an `IndexError` when the
+    string is too short) is the model's `legacyKey`. -/
+theorem gen_legacyKey_eq_model (ij : String) :
+    legacyKey ij =
+      match ij.toList[ModelSource.ecLegacyIndexChars.getD 0 0]?, ij.toList[ModelSource.ecLegacyIndexChars.getD 1 0]? with
+      | some a, some b => some (ModelSource.ecLegacyPrefix ++ String.ofList [a, b])
+      | _, _ => none := by
+  unfold legacyKey
+  rcases h : ij.toList with _ | ⟨a, _ | ⟨b, _ | ⟨c, r⟩⟩⟩ <;> rfl
+
+/-- root, list key, index key, value key of the old format are the ones the model's `ecReadLegacy` /
+    `legacyEntryRead` look up; exactly two characters are taken from the index string. -/
+theorem gen_ecLegacy_keys_eq_model :
+    ModelSource.ecFind = "elastic-constants" ∧ ModelSource.ecLegacyListKey = "C" ∧ ModelSource.ecLegacyIndexKey = "ij"
+    ∧ ModelSource.ecLegacyValueKey = "stiffness" ∧ ModelSource.ecLegacyIndexChars.length = 2
+    ∧ ModelSource.ecLegacyListKey ≠ ModelSource.ecReadKey := by
+  decide
+
+/-- `ElasticConstants(**c_dict)` for every keyword set of a standard representation: the 36 entries regenerated from
+    `__init__`'s dispatch on the number of keywords and the constructor it reaches ARE the model's `legacyForm` of the
+    dictionary with these keywords, whatever their values. -/
+theorem gen_legacyForm_eq_model [Add K] [Sub K] [Mul K] [Div K] [Neg K] [OfNat K 0] [IntCast K]
+    (keys : List String) (g : String → K) (h : keys ∈ ModelSource.legacyBranches.map Prod.fst) :
+    legacyForm (keys.map (fun k => (k, g k))) = ModelSource.legacyEntries keys g := by
+  simp only [ModelSource.legacyBranches, List.map_cons, List.map_nil, List.mem_cons, List.not_mem_nil, or_false] at h
+  rcases h with h | h | h | h | h | h | h | h | h | h <;> subst h <;> rfl
+
+/-- the dispatch of `__init__` on the number of keywords: each standard set reaches the constructor of its name, and
+    the model refuses every dictionary whose size is none of 2, 3, 5, 6, 7, 9, 13, 21 (the source: `TypeError`; 8 — a
+    rhombohedral set with the redundant `C66` — is outside the model). -/
+theorem gen_legacy_branches :
+    ModelSource.legacyBranches.map (fun b => (b.1.length, b.2)) =
+      [(2, "isotropic"), (3, "cubic"), (5, "hexagonal"), (6, "tetragonal"), (7, "tetragonal"), (6, "rhombohedral"),
+       (7, "rhombohedral"), (9, "orthorhombic"), (13, "monoclinic"), (21, "triclinic")] := by
+  decide
+
+theorem legacyForm_refuses_count [Add K] [Sub K] [Mul K] [Div K] [Neg K] [OfNat K 0] [IntCast K]
+    (kw : List (String × K)) (h : kw.length ∉ [2, 3, 5, 6, 7, 9, 13, 21]) : legacyForm kw = none := by
+  simp only [List.mem_cons, List.not_mem_nil, or_false, not_or] at h
+  obtain ⟨h2, h3, h5, h6, h7, h9, h13, h21⟩ := h
+  simp [legacyForm, h2, h3, h5, h6, h7, h9, h13, h21]
+
 end Atomman.C10
